@@ -168,17 +168,18 @@ Section CallThms.
   (* with acceptance = runtime membership on literal arguments:
      diagnosed(call) <=> exists arg: not member(arg, declared(param)) *)
   Context {Obj : Type} (val : Obj -> V) (member : Obj -> V -> bool).
-  Hypothesis acc_member : forall t o, acc O t (val o) = member o t.
-
   Definition literal_args (b : list (cparam * barg)) : Prop :=
     forall p vs x, In (p, BVals vs) b -> In x vs -> exists o, x = AV (val o).
 
-  Theorem nongeneric_diagnosed_iff_nonmember : forall s c b,
+  Theorem nongeneric_diagnosed_iff_nonmember_on : forall s c b,
     no_tv s = true -> cbind s c = Some b -> literal_args b ->
+    (* acceptance = membership is only needed on the (declared type, literal) pairs of this call *)
+    (forall p vs t o, In (p, BVals vs) b -> ann p = AnnTy t -> In (AV (val o)) vs ->
+        acc O t (val o) = member o t) ->
     (diagnosed O limit s c = true <->
      exists p vs t o, In (p, BVals vs) b /\ ann p = AnnTy t /\ In (AV (val o)) vs /\ member o t = false).
   Proof.
-    intros s c b Hnv Hb Hlit. unfold diagnosed. split.
+    intros s c b Hnv Hb Hlit Ham. unfold diagnosed. split.
     - destruct (fst (check_call O limit s c)) as [|d l] eqn:E; [discriminate|]. intros _.
       assert (Hd : In d (fst (check_call O limit s c))) by (rewrite E; left; reflexivity).
       apply (nongeneric_diagnostics s c b Hnv Hb) in Hd.
@@ -188,12 +189,22 @@ Section CallThms.
       { unfold no_tv in Hnv. rewrite forallb_forall in Hnv. specialize (Hnv p (cbind_params s c b p _ Hb Hin)).
         destruct (has_tv (ann p)); [discriminate|reflexivity]. }
       destruct (ann p) as [|t|k|k|k j|k r] eqn:Ea; cbn in Hf, Hp; try discriminate.
-      exists p, vs, t, o. rewrite <- acc_member. auto.
+      exists p, vs, t, o. rewrite <- (Ham p vs t o Hin Ea Hx). auto.
     - intros [p [vs [t [o [Hin [Ea [Hx Hm]]]]]]].
       assert (Hd : In (IncompatibleArgument (pname (cp p))) (fst (check_call O limit s c))).
       { apply (nongeneric_diagnostics s c b Hnv Hb). exists p, vs, (AV (val o)). repeat split; auto.
-        rewrite Ea. cbn. rewrite acc_member. exact Hm. }
+        rewrite Ea. cbn. rewrite (Ham p vs t o Hin Ea Hx). exact Hm. }
       destruct (fst (check_call O limit s c)); [destruct Hd|reflexivity].
+  Qed.
+
+  Hypothesis acc_member : forall t o, acc O t (val o) = member o t.
+
+  Theorem nongeneric_diagnosed_iff_nonmember : forall s c b,
+    no_tv s = true -> cbind s c = Some b -> literal_args b ->
+    (diagnosed O limit s c = true <->
+     exists p vs t o, In (p, BVals vs) b /\ ann p = AnnTy t /\ In (AV (val o)) vs /\ member o t = false).
+  Proof.
+    intros s c b Hnv Hb Hlit. apply nongeneric_diagnosed_iff_nonmember_on; auto.
   Qed.
 
   (* ---- with C15: a positional / keyword argument passed for a parameter annotated T_k is
